@@ -1,5 +1,114 @@
-/- Engine `undo` (C15): not built yet. -/
+/-
+  Engine `undo` (C15).  One op line = one whole history on a fresh UndoHistory.
+    H <tok>…  with  R <addr-hex> <tag> <old-hex8> <new-hex8> | S <k> | T <d>
+    E <tok>…  with  P <idx> <val-hex8> | S <k> | T <d>       (end to end, four ports)
+  Output: one token per op (see harness/undo.cpp).
+-/
+import RtoscModel.Undo
 import Driver.Common
 namespace Driver.UndoEngine
-def engine : Driver.Engine := Driver.stateless (fun _ => "unimplemented")
+open Rtosc Rtosc.Undo
+
+def hex8 (v : UInt32) : String :=
+  toHex [UInt8.ofNat (v.toNat / 16777216), UInt8.ofNat (v.toNat / 65536 % 256),
+         UInt8.ofNat (v.toNat / 256 % 256), UInt8.ofNat (v.toNat % 256)]
+
+def parseHex8 (s : String) : Option UInt32 :=
+  if s.length ≠ 8 then none else
+  match ofHex s with
+  | some [a, b, c, d] => some (UInt32.ofNat (((a.toNat * 256 + b.toNat) * 256 + c.toNat) * 256 + d.toNat))
+  | _ => none
+
+def parseInt (s : String) (lo hi : Int) : Option Int :=
+  if s.length > 12 then none else
+  let body := if s.startsWith "-" || s.startsWith "+" then (s.drop 1).toString else s
+  if body.isEmpty || !body.all Char.isDigit then none else
+  match body.toNat? with
+  | none => none
+  | some n =>
+    let v : Int := if s.startsWith "-" then -(n : Int) else (n : Int)
+    if lo ≤ v ∧ v ≤ hi then some v else none
+
+def showEmit : Emit → String
+  | none => "E"
+  | some m => s!"{toHex m.addr}.{Char.ofNat m.tag.toNat}.{hex8 m.val}"
+
+def showEmits (ms : List Emit) : String :=
+  if ms.isEmpty then "-" else ";".intercalate (ms.map showEmit)
+
+def posz (u : State) : String := s!"p{getPos u}/{size u}"
+
+/-- the four ports of the end-to-end object: name, tag -/
+def ports : List (Bytes × UInt8) :=
+  [("/a".toUTF8.toList, 99), ("/bb".toUTF8.toList, 99), ("/i".toUTF8.toList, 105), ("/lng".toUTF8.toList, 105)]
+
+/-- `rParam` on a `char` field: `char var = arg.i` (keeps the low byte, sign-extended),
+    then `rLIMIT` with the macro's `min 0`, `max 127`.  `rParamI`: the int as is. -/
+def portValue (tag : UInt8) (v : UInt32) : UInt32 :=
+  if tag = 99 then
+    let b := v.toNat % 256
+    if b ≥ 128 then 0 else UInt32.ofNat b
+  else v
+
+def showStore (σ : Store) : String :=
+  "|" ++ ",".intercalate (ports.map fun p => hex8 (σ p.1))
+
+structure Run where
+  A   : App
+  out : List String   -- reversed
+
+def emitTok (r : Run) (A : App) (tok : String) (e2e : Bool) : Run :=
+  ⟨A, (if e2e then tok ++ showStore A.σ else tok) :: r.out⟩
+
+def finish (r : Run) : String :=
+  if r.out.isEmpty then "-" else " ".intercalate r.out.reverse
+
+/-- token loop; `fuel` = number of tokens (each op consumes at least two). -/
+def go (e2e : Bool) : Nat → List String → Run → String
+  | 0, _, r => finish r
+  | _, [], r => finish r
+  | fuel + 1, "R" :: a :: t :: o :: n :: rest, r =>
+    if e2e then "bad-op" else
+    match ofHex a, t.toList, parseHex8 o, parseHex8 n with
+    | some addr, [c], some ov, some nv =>
+      if (c = 'i' || c = 'f' || c = 'c') && addr.all (· ≠ 0) then
+        let u := recordEvent r.A.clock ⟨addr, UInt8.ofNat c.toNat, ov, nv⟩ r.A.u
+        let A := { r.A with u := u }
+        go e2e fuel rest (emitTok r A (posz u) e2e)
+      else "bad-op"
+    | _, _, _, _ => "bad-op"
+  | fuel + 1, "P" :: i :: v :: rest, r =>
+    if !e2e then "bad-op" else
+    match parseInt i 0 3, parseHex8 v with
+    | some idx, some val =>
+      match ports[idx.toNat]? with
+      | none => "bad-op"
+      | some (a, tag) =>
+        match r.A.step (.set a tag (portValue tag val)) with
+        | none => "oob"
+        | some (A, _) => go e2e fuel rest (emitTok r A (posz A.u) e2e)
+    | _, _ => "bad-op"
+  | fuel + 1, "S" :: k :: rest, r =>
+    match parseInt k (-2147483648) 2147483647 with
+    | none => "bad-op"
+    | some d =>
+      match r.A.step (.seek d) with
+      | none => "oob"
+      | some (A, ms) => go e2e fuel rest (emitTok r A (posz A.u ++ ":" ++ showEmits ms) e2e)
+  | fuel + 1, "T" :: d :: rest, r =>
+    match parseInt d (-1000000000) 1000000000 with
+    | none => "bad-op"
+    | some d =>
+      match r.A.step (.tick d) with
+      | none => "oob"
+      | some (A, _) => go e2e fuel rest ⟨A, "t" :: r.out⟩
+  | _, _, _ => "bad-op"
+
+def step (line : String) : String :=
+  match words line with
+  | "H" :: rest => go false rest.length rest ⟨App.init (fun _ => 0) 1000000, []⟩
+  | "E" :: rest => go true rest.length rest ⟨App.init (fun _ => 0) 1000000, []⟩
+  | _ => "bad-op"
+
+def engine : Driver.Engine := Driver.stateless step
 end Driver.UndoEngine
